@@ -65,6 +65,7 @@ func NewInterp(prog *ssa.Program, ctx *Ctx) *Interp {
 	in.installStubs4()
 	in.installStubs5()
 	in.installStubs6()
+	in.installStubs7()
 	return in
 }
 
@@ -517,6 +518,8 @@ func (in *Interp) callFunctionBody(fn *ssa.Function, args []Value) Value {
 	if recv := fn.Signature.Recv(); recv != nil {
 		// types with a native model must not fall back to their (unsafe) source
 		switch recv.Type().String() {
+		case "time.Time", "*time.Time", "*time.Location":
+			abortf("unsupported: %s has no native model", name)
 		case "*strings.Builder", "*math/big.Int", "*regexp.Regexp", "*sync.Map", "*encoding/json.Decoder", "*sync.Once", "*sync.Pool":
 			abortf("unsupported: %s has no native model", name)
 		}
